@@ -50,7 +50,7 @@ var c13Denoms = []string{"uatom", "uband", "ufoo"} // sorted
 func genC13O(rt *rapid.T) c13oCase {
 	c := c13oCase{Poor: gen.OneOf(rt, "poor", "exact", "minus1", "kth", "plenty"), PoorK: gen.Range(rt, "poork", 1, 3)}
 	for d := 0; d < 3; d++ {
-		kind := gen.Uniform(rt, "feekind", 5)
+		kind := gen.Pick(rt, "feekind", 4, 4, 4, 4, 4, 3)
 		f := []int64{0, 0, 0}
 		switch kind {
 		case 0: // free
@@ -62,6 +62,9 @@ func genC13O(rt *rapid.T) c13oCase {
 			f[0], f[1], f[2] = 2, 5, int64(gen.OneOf(rt, "fee3", 1, 9))
 		case 4:
 			f[2] = int64(gen.OneOf(rt, "fee", 1, 11))
+		case 5: // an 18-decimals style denom: the fee fits 64 bits, fee x ask_count (and sums over sources) need not
+			f[2] = gen.OneOf[int64](rt, "bigfee", 3_000_000_000_000_000_000, 1<<62, 1<<63-1, 6_148_914_691_236_517_206, 1_152_921_504_606_846_976)
+			f[1] = int64(gen.OneOf(rt, "fee2", 0, 5))
 		}
 		c.Fees = append(c.Fees, f)
 	}
@@ -84,8 +87,8 @@ func genC13O(rt *rapid.T) c13oCase {
 func c13Coins(f []int64, mul int64) sdk.Coins {
 	cs := sdk.NewCoins()
 	for i, d := range c13Denoms {
-		if f[i]*mul > 0 {
-			cs = cs.Add(sdk.NewInt64Coin(d, f[i]*mul))
+		if f[i] > 0 && mul > 0 { // exact: 18-decimals style amounts times ask_count exceed 64 bits
+			cs = cs.Add(sdk.NewCoin(d, sdkInt(f[i]).MulRaw(mul)))
 		}
 	}
 	return cs
@@ -102,7 +105,7 @@ func runC13O(c c13oCase) *pbt.Verdict {
 		scripts = append(scripts, sim.ScriptAsk(s, "ok"))
 	}
 	ch, err := sim.New(sim.Config{NumAccounts: 6, MintOff: true, Validators: []sim.ValSpec{{Tokens: 3_000_000}, {Tokens: 2_000_000}, {Tokens: 1_000_000}},
-		Balance:     sdk.NewCoins(sdk.NewInt64Coin("uband", 1_000_000_000), sdk.NewInt64Coin("uatom", 1_000_000_000), sdk.NewInt64Coin("ufoo", 1_000_000_000)),
+		Balance:     sdk.NewCoins(sdk.NewInt64Coin("uband", 1_000_000_000), sdk.NewInt64Coin("uatom", 1_000_000_000), sdk.NewCoin("ufoo", sdkInt(1_000_000_000).MulRaw(1_000_000_000).MulRaw(1_000_000_000))),
 		DataSources: dss, Scripts: scripts}, 0)
 	if err != nil {
 		v.Failf("harness", "sim.New: %v", err)
